@@ -218,6 +218,11 @@ func (l *Gpos6_1) encode() []byte {
 			}
 		}
 	}
+	if mark2ArrayOffset > 0xFFFF || mark2Count*markClassCount > (65536-6-2)/2 ||
+		markClassCount > 0xFFFF || mark2Count > 0xFFFF {
+		// 16-bit offsets; the second bound is the one readGpos6_1 enforces
+		panic("GPOS 6.1 subtable too large")
+	}
 	res := make([]byte, 0, total)
 
 	res = append(res,
@@ -237,6 +242,9 @@ func (l *Gpos6_1) encode() []byte {
 	)
 	offs := 2 + 4*mark1Count
 	for _, rec := range l.Mark1Array {
+		if offs > 0xFFFF {
+			panic("GPOS 6.1 mark array too large")
+		}
 		res = append(res,
 			byte(rec.Class>>8), byte(rec.Class),
 			byte(offs>>8), byte(offs),
@@ -256,6 +264,9 @@ func (l *Gpos6_1) encode() []byte {
 			if rec.IsEmpty() {
 				res = append(res, 0, 0)
 				continue
+			}
+			if offs > 0xFFFF {
+				panic("GPOS 6.1 mark2 array too large")
 			}
 			res = append(res,
 				byte(offs>>8), byte(offs),
